@@ -63,7 +63,11 @@ func (o *Obligation) smt() string {
 }
 
 func runSolver(sp solverSpec, timeoutS int, file string) (verdict, out string, secs float64) {
-	ctx, cancel := context.WithTimeout(context.Background(), time.Duration(timeoutS+5)*time.Second)
+	return runSolverCtx(context.Background(), sp, timeoutS, file)
+}
+
+func runSolverCtx(parent context.Context, sp solverSpec, timeoutS int, file string) (verdict, out string, secs float64) {
+	ctx, cancel := context.WithTimeout(parent, time.Duration(timeoutS+5)*time.Second)
 	defer cancel()
 	args := sp.args(timeoutS, file)
 	cmd := exec.CommandContext(ctx, args[0], args[1:]...)
@@ -132,10 +136,11 @@ func solveOne(o *Obligation, dir string, timeoutS int) *SolveResult {
 			secs         float64
 		}
 		ch := make(chan r, len(solvers))
+		rctx, rcancel := context.WithCancel(context.Background())
 		for _, sp := range solvers {
 			sp := sp
 			go func() {
-				v, out, secs := runSolver(sp, timeoutS, fname)
+				v, out, secs := runSolverCtx(rctx, sp, timeoutS, fname)
 				ch <- r{v, out, sp.name, secs}
 			}()
 		}
@@ -146,8 +151,10 @@ func solveOne(o *Obligation, dir string, timeoutS int) *SolveResult {
 			if decisive(x.v) && !decisive(best.v) {
 				best = x
 				res.Seconds += x.secs
+				break // the first decisive answer wins; the other solvers are stopped
 			}
 		}
+		rcancel()
 		if !decisive(best.v) {
 			res.Seconds += float64(timeoutS)
 		}
